@@ -1,0 +1,28 @@
+//go:build verif
+
+// Verification contracts (properties C01 and C05; comment-only, read by /verif/govc). No executable code.
+//
+// handleProduce: the per-partition success code (ErrorCode 0) of a request with acks != 0 is written, with synchronous
+// flush-on-ack enabled, only after PartitionLog.Flush returned nil in the same iteration. Exploration starts after the
+// AppendBatch call (the code before it belongs to C19 / C24 / C25); Flush itself is under contract in pkg/storage.
+//
+// getPartitionLog's flush callback: publishes exactly (topic, partition, artifact.LastOffset) of the log it was built for.
+
+package main
+
+//@ func (h *handler) handleProduce
+//@   only_for C01
+//@   at AppendBatch#1 havoc
+//@   at AppendBatch#1 after start
+//@   ghost gFlushed bool = false
+//@   ghost gFerr error = nil
+//@   at Flush#1 havoc
+//@   at Flush#1 after set gFlushed = true
+//@   at Flush#1 after set gFerr = ret0
+//@   at append#11 before assert [C01.success_code_only_after_the_flush_succeeded] len(arg1) == 1 && arg1[0].ErrorCode == 0 && (req.Acks != 0 && h.flushOnAck ==> gFlushed && isNilIface(gFerr))
+//@   at append#9 before assert [C01.failed_append_is_not_acknowledged] len(arg1) == 1 && arg1[0].ErrorCode != 0
+//@   at append#10 before assert [C01.failed_flush_is_not_acknowledged] len(arg1) == 1 && arg1[0].ErrorCode != 0 && gFlushed && !isNilIface(gFerr)
+
+//@ func (h *handler) getPartitionLog$1$1
+//@   only_for C05
+//@   at UpdateOffsets#1 before assert [C05.callback_publishes_the_artifact_last_offset_of_its_partition] arg1 == *topic && arg2 == *partition && arg3 == artifact.LastOffset
